@@ -5,7 +5,8 @@
      V kind root key value pk length bitmap ap,..
          model verifier verdict "1"/"0"; kind = I | N | IC | NC
      VS ..  the same with SHA-256 as the hash function (proofs produced by the node itself)
-     S hex  prints SHA-256 of the bytes (test vector) *)
+     S hex  prints SHA-256 of the bytes (test vector)
+     RS k:v k:v ..   prints "root <hex>": SHA-256 root of the model tree with exactly these leaves *)
 open Trie_model
 
 let rec pos_of_int i = if i = 1 then XH else if i land 1 = 1 then XI (pos_of_int (i lsr 1)) else XO (pos_of_int (i lsr 1))
@@ -105,6 +106,13 @@ let handle toy h hist (rest : string list) =
       print_endline (if verdict toy kind root key value pk length bitmap ap then "1" else "0")
   | ["VS"; kind; root; key; value; pk; length; bitmap; ap] ->      (* same with SHA-256 *)
       print_endline (if verdict sha256 kind root key value pk length bitmap ap then "1" else "0")
+  | "RS" :: ents ->
+      (* root, under SHA-256, of the tree holding exactly the given k:v leaves (one sorted batch on
+         the empty tree); used for the storage tries and the account trie of the statedb level *)
+      let ps = List.map (fun e -> match String.split_on_char ':' e with
+                                  | [k; v] -> (bytes_to_bits (bytes_of_hex k), Some (bytes_of_hex v))
+                                  | _ -> failwith "RS") (List.sort compare ents) in
+      Printf.printf "root %s\n" (hex_of_bytes (root sha256 h (trie_update h E ps)))
   | ["S"; hx] -> print_endline (hex_of_bytes (sha256 (bytes_of_hex hx)))
   | [] -> ()
   | x :: _ -> Printf.printf "unknown record %s\n" x
